@@ -319,7 +319,7 @@ def gen_trace(seed: int, tier: str) -> dict:
     exclude = {"ph_insert_picture", "ph_insert_chart", "ph_insert_table"}
     events, sw = common.gen_history(
         seed, fault_rate=common.fault_arm(seed), n_events=n, families=["c06", "slides", "shapes", "media", "charts", "tables", "actions", "package"],
-        always=("c06", "shapes", "slides"), ckpt=0.06, reopen=0.05, restart=0.03, observe=0.03, jump=0.0, fork=0.0,
+        always=("c06", "shapes", "slides"), ckpt=0.06, reopen=0.05, restart=0.03, observe=0.03, jump=0.0, fork=0.03,
         op_filter=lambda name: name in ADD_OPS and name not in exclude)
     if turbo:
         # single held SlideShapes handle per slide for the whole run (turbo's precondition): all shape additions go
